@@ -1,3 +1,10 @@
-import GenlmModel.Model.Basic
+import GenlmModel.Proofs.Semiring
+/-! # C16 — semiring laws.  The theorems are in namespace `Genlm.SemiringLaws.<Type>` (audited with this
+property); they are ABOUT `Generated/Semiring.lean`, regenerated from semiring.py on every run. -/
 namespace Genlm.Props.C16
+open Genlm.SemiringLaws in
+/-- sample headline: Expectation star law on its domain -/
+theorem expectation_star {T : Type} [Field T] (a : T × T) (h : a.1 ≠ 1) :
+    Gen.Expectation.star a = Gen.Expectation.add Gen.Expectation.oneV (Gen.Expectation.mul a (Gen.Expectation.star a)) :=
+  Expectation.star_left' a h
 end Genlm.Props.C16
